@@ -157,7 +157,10 @@ func c07InputOrder(ctx *Ctx, res *CaseResult, dir string, w *Workload, perm []in
 
 func unrelatedInput(r *Rand, w *Workload) *Workload {
 	c := w.Clone()
-	in, _ := genPkgInput(r, c, "zzunrelated", Pick(r, []string{"jsonschema", "openapi"}), GenOpts{NoAllOf: true})
+	// the extra package sorts before, between or after the others: state that leaks
+	// from one package to the next only travels in one direction of that order
+	name := Pick(r, []string{"zzunrelated", "aaunrelated", "a0unrelated", "mmunrelated"})
+	in, _ := genPkgInput(r, c, name, Pick(r, []string{"jsonschema", "openapi"}), GenOpts{NoAllOf: true})
 	pos := r.Intn(len(c.Inputs) + 1)
 	c.Inputs = append(c.Inputs[:pos], append([]InputSpec{in}, c.Inputs[pos:]...)...)
 	return c
@@ -180,12 +183,12 @@ func c07Unrelated(ctx *Ctx, res *CaseResult, dir string, w, w2 *Workload, pkgs [
 	}
 	a, b := map[string]string{}, map[string]string{}
 	for p, h := range base {
-		if attributedTo(p, pk) && !strings.Contains(strings.ToLower(p), "zzunrelated") {
+		if attributedTo(p, pk) && !strings.Contains(strings.ToLower(p), "unrelated") {
 			a[p] = h
 		}
 	}
 	for p, h := range got {
-		if attributedTo(p, pk) && !strings.Contains(strings.ToLower(p), "zzunrelated") {
+		if attributedTo(p, pk) && !strings.Contains(strings.ToLower(p), "unrelated") {
 			b[p] = h
 		}
 	}
@@ -755,7 +758,7 @@ func renameAll(p *WPackage, prefix string) {
 		if t == nil {
 			return
 		}
-		if t.K == "ref" {
+		if t.K == "ref" || t.K == "constref" {
 			if n, ok := ren[t.Ref]; ok {
 				t.Ref = n
 			}
